@@ -15,6 +15,7 @@ def run(ctx, rep):
     shaperules.check_insert(ctx, rep)
     shaperules.check_remove(ctx, rep)
     shaperules.check_into_iter(ctx, rep)
+    shaperules.check_splay(ctx, rep)
     # the two unsafe derefs are of self.root.get() only (shared with C12 D-unsafe)
     f = ctx.facts()
     blocks, ufns, uimpls = c12.scan_unsafe(f)
